@@ -179,3 +179,20 @@ def heavy_spiked(rng, g, count, heavy):
     for i in rng.sample(range(len(es)), min(count, len(es))):
         es[i] = (es[i][0], es[i][1], heavy)
     return {'n': g['n'], 'edges': es}
+
+
+def with_tree_components(rng, g, t):
+    """g plus t separate tree components (single edges, short paths, small stars): many components, m may drop below n"""
+    out = g
+    for _ in range(t):
+        kind = rng.random()
+        if kind < 0.5:
+            comp = {'n': 2, 'edges': [(0, 1, rng.randint(1, 3))]}
+        elif kind < 0.8:
+            k = rng.randint(3, 4)
+            comp = {'n': k, 'edges': [(i, i + 1, rng.randint(1, 3)) for i in range(k - 1)]}
+        else:
+            k = rng.randint(3, 5)
+            comp = {'n': k, 'edges': [(0, i, rng.randint(1, 3)) for i in range(1, k)]}
+        out = union(out, comp)
+    return out
